@@ -396,6 +396,7 @@ func init() {
 				out = append(out, c17Scope(spPair("B2", enum.Eax, 3, 3, 3, 4), false, 3, 3, 1))
 				out = append(out, c17Scope(spRects(enum.Eax, 3, 4), false, 4, 4, 2))
 				out = append(out, c17Scope(spTwoLevel(37, 11, 5), false, 4, 3, 1))
+				out = append(out, c17Scope(spSingle(enum.Esh, 3, 5, 3), false, 5, 0, 1))
 				out = append(out, c17DetScope("passA", p33Alpha(enum.Eax), 3, 13), c17DetScope("passB", p33Alpha(enum.Eax), 3, 13))
 				return out
 			}
